@@ -117,6 +117,7 @@ type c04Hook struct {
 	Bindings  []c04Binding
 	KBindings []c04KBinding
 	V0        bool // v0 configuration (JSON): onStartup + schedule only, main queue, no groups; no combining
+	Extra     string // further top-level sections of a v1 configuration (YAML), e.g. webhook bindings (C07)
 }
 
 func c04QueueName(n int) string {
@@ -197,6 +198,7 @@ func (h c04Hook) script(dir, ns string) string {
 			}
 		}
 	}
+	b.WriteString(h.Extra)
 	b.WriteString("EOF\nexit 0\nfi\n")
 	return b.String() + h.body(dir)
 }
@@ -214,6 +216,7 @@ read -r mode < "$D/gate.$H.$n"
 printf 'end\t%s\t%s\t%s\t%s\n' "$H" "$n" "$(date +%s%N)" "$mode" >> "$D/log"
 case "$mode" in
   ok) exit 0 ;;
+  okfault) exit 0 ;;
   exit) exit 1 ;;
   metrics) echo '{"name": 5, bad' > "$METRICS_PATH"; exit 0 ;;
   patch) echo 'this is: [not, a valid' > "$KUBERNETES_PATCH_PATH"; exit 0 ;;
@@ -313,6 +316,10 @@ type c04World struct {
 	// onExec (optional, set by other suites that reuse this world): called for every hook execution
 	// once the hook has started, with the queue at handler entry and the queue now
 	onExec func(qn, id int, pre, now []c04Snap, run *c04Running)
+	// recoverPanics (optional, C07): a panic that escapes the operator's task handler is caught by the
+	// wrapped queue handler and reported to the worker as a failed run (the harness plays an operator
+	// that survives it); off: it takes the process down, as in production
+	recoverPanics bool
 }
 
 func (w *c04World) snap(x task.Task) c04Snap {
@@ -347,9 +354,18 @@ func (w *c04World) configure(q *queue.TaskQueue) {
 	w.rets[name] = make(chan c04Ret, 256)
 	ech, rch := w.entries[name], w.rets[name]
 	w.mu.Unlock()
-	q.Handler = func(t task.Task) queue.TaskResult {
+	q.Handler = func(t task.Task) (res queue.TaskResult) {
 		ech <- c04Entry{time.Now(), w.snapQueue(q)}
-		res := realHandler(t)
+		func() {
+			defer func() {
+				if w.recoverPanics {
+					if p := recover(); p != nil {
+						res = queue.TaskResult{Status: queue.Fail}
+					}
+				}
+			}()
+			res = realHandler(t)
+		}()
 		rch <- c04Ret{res.Status, w.snapQueue(q)}
 		return res
 	}
